@@ -1,5 +1,6 @@
 import RrModel.Generated.Facts
 import RrModel.Spec.Tables
+import RrModel.Spec.LimiterTables
 /-
   Fact pins: the tables regenerated from /repo's working tree (RrModel/Generated/Facts.lean)
   equal the specification tables the property statements are written against.  A change to a
@@ -32,5 +33,11 @@ theorem recompressTable : Facts.recompressTable = Spec.recompressTable := by rfl
 theorem cacheable4xxCacheControl : Facts.cacheable4xxCacheControl = Spec.cacheable4xxCacheControl := by rfl
 theorem cacheStatusHeader : Facts.cacheStatusHeader = Spec.cacheStatusHeader := by rfl
 theorem storePrepShape : Facts.storePrepShape = Spec.storePrepShape := by rfl
+theorem reloadSteps : Facts.reloadSteps = Spec.reloadSteps := by rfl
+theorem purgeIntervalSec : Facts.purgeIntervalSec = Spec.purgeIntervalSec := by rfl
+theorem maxPurgeBytes : Facts.maxPurgeBytes = Spec.maxPurgeBytes := by rfl
+theorem kbDivisor : Facts.kbDivisor = Spec.kbDivisor := by rfl
+theorem limiterArith : Facts.limiterArith = Spec.limiterArith := by rfl
+theorem atimeFlushShape : Facts.atimeFlushShape = Spec.atimeFlushShape := by rfl
 
 end Pins
